@@ -134,7 +134,7 @@ def run(chk, tier):
         chk.inst("derive-expansion", key, not probs, detail="; ".join(sorted(set(probs))[:3]),
                  sample={"shape": s.render(), "expected_traced": {str(k): sorted(v) for k, v in want.items()},
                          "expected_needs_trace": s.expected_needs_trace()} if n in (3, 60, 150) else None)
-    chk.floor("shapes", n, 150 if tier == "quick" else 400)
+    chk.floor("shapes", n, 100 if tier == "quick" else 250)
     chk.extra["shapes"] = n
     # blanket impl of __MustNotImplDrop for all T: Drop in the crate itself
     gp = model.Program(facts.load("default"), "default")
